@@ -536,10 +536,10 @@ class Script(object):
         for item in items:
             if item.isdigit():
                 ival = int(item)
-                if 0 < ival <= 16:
+                if 0 <= ival <= 16:
                     s_items.append(ival.to_bytes(1, 'big'))
                 else:
-                    s_items.append(int_to_varbyteint(ival))
+                    s_items.append(encode_num(ival))
             elif item.startswith('OP_'):
                 s_items.append(getattr(op, item.lower(), 'unknown-command-%s' % item))
             else:
